@@ -26,25 +26,28 @@ theorem dsthost_key_pinned :
 /-- **Link to C03.** The interceptor builds the request from `getDestinationHostFromMetadata(md)` (Host) and
 `url.ParseRequestURI(info.FullMethod)` (URL), where `md` is the incoming metadata of the stream's context. -/
 theorem lookup_request_pinned :
-    lookupRequest = ["lit http.Request {Header=_; Host=recv.getDestinationHostFromMetadata(FromIncomingContext#0); URL=ParseRequestURI#0}"] ∧
-    lookupInputs = ["call metadata.FromIncomingContext(p1.Context())", "call url.ParseRequestURI(p2.FullMethod)"] := ⟨rfl, rfl⟩
+    lookupRequest = ["lit http.Request {Header=_; Host=recv.getDestinationHostFromMetadata(FromIncomingContext#0); URL=ParseRequestURI#0}", "lit http.Request {Header=_}}"] ∧
+    lookupInputs = ["call metadata.FromIncomingContext(p1.Context())", "call url.ParseRequestURI(p2.FullMethod)", "call metadata.FromIncomingContext(p1.Context())"] := ⟨rfl, rfl⟩
 
 /-- The synthetic request sets `Host`, `URL` and `Header` only (`lookup_request_pinned` lists the fields of
-the literal) and nothing stores into its `TLS` field (such a store would be a second entry of the list): `TLS`
-stays nil, so the routing model (C03) is applied with `tls := false` (`Props/C16Compose.lean: grpcReq`). -/
+the literal) and nothing stores into its `TLS` field (such a store would be a further entry of the list): `TLS`
+stays nil, so the routing model (C03) is applied with `tls := false` (`Props/C16Compose.lean: grpcReq`). The second
+entry is the header-only request handed to the route's auth scheme (C12, repair of D31); it comes after the
+lookup and is not the lookup's argument (`lookup_calls_table_lookup_once`: the argument is the first literal). -/
 theorem synthetic_request_has_no_tls :
-    lookupRequest.length = 1 := by decide
+    lookupRequest.length = 2 := by decide
 
 /-- The flow of `Stream`: the table is consulted exactly once, through `Table.Lookup` on the current table
 with the configured picker and matcher; a lookup error is `codes.Internal`; a nil target is answered
 `codes.NotFound` and the function returns there; a target whose access rules deny the peer is answered
-`codes.PermissionDenied` (C12); only then the (single) call of the handler, which alone leads to director and
+`codes.PermissionDenied`, a target whose auth scheme rejects the call's `authorization` metadata
+`codes.Unauthenticated` (C12); only then the (single) call of the handler, which alone leads to director and
 pool. -/
 theorem lookup_calls_table_lookup_once :
-    streamFlow = ["call route.GetTable().Lookup(lit#http.Request, lit#http.Request.Header.Get(\"trace\"), route.Picker[recv.Config.Proxy.Strategy], route.Matcher[recv.Config.Proxy.Matcher], recv.GlobCache, recv.Config.GlobMatchingDisabled)", "[lookedErr != nil] ret status.Error(codes.Internal, \"internal error\")", "[!(lookedErr != nil) && looked == nil] ret status.Error(codes.NotFound, \"no route found\")", "[!(lookedErr != nil) && !(looked == nil) && looked.AccessDeniedAddr(remote)] ret status.Error(codes.PermissionDenied, \"access denied\")", "[!(lookedErr != nil) && !(looked == nil) && !(looked.AccessDeniedAddr(remote))] call p3"] := rfl
+    streamFlow = ["call route.GetTable().Lookup(lit#http.Request, lit#http.Request.Header.Get(\"trace\"), route.Picker[recv.Config.Proxy.Strategy], route.Matcher[recv.Config.Proxy.Matcher], recv.GlobCache, recv.Config.GlobMatchingDisabled)", "[lookedErr != nil] ret status.Error(codes.Internal, \"internal error\")", "[!(lookedErr != nil) && looked == nil] ret status.Error(codes.NotFound, \"no route found\")", "[!(lookedErr != nil) && !(looked == nil) && looked.AccessDeniedAddr(remote)] ret status.Error(codes.PermissionDenied, \"access denied\")", "[!(lookedErr != nil) && !(looked == nil) && !(looked.AccessDeniedAddr(remote)) && looked.AuthScheme != \"\" && !looked.Authorized(lit#http.Request, nopResponseWriter{http.Header{}}, recv.AuthSchemes)] ret status.Error(codes.Unauthenticated, \"unauthorized\")", "[!(lookedErr != nil) && !(looked == nil) && !(looked.AccessDeniedAddr(remote))] call p3"] := rfl
 
 theorem nil_target_returns_notfound_before_handler :
-    streamHandlerCalls = 1 ∧ streamFlow.length = 5 := by decide
+    streamHandlerCalls = 1 ∧ streamFlow.length = 6 := by decide
 
 /-- The director (the function literal `GetGRPCDirector` returns) copies the incoming metadata unchanged to
 the outgoing context and asks the pool — built once per director by the constructor — for the target the
@@ -74,12 +77,12 @@ theorem cleanup_shape :
     cleanupGoroutinesStarted = 1 := ⟨rfl, rfl, rfl, rfl⟩
 
 /-- `main.newGrpcProxy` wires codec, unknown-service handler (the transparent handler over the director),
-interceptor (configuration, stats handler, glob cache) and the two message limits — each from its own
+interceptor (configuration, stats handler, glob cache, the loaded auth schemes) and the two message limits — each from its own
 configuration value, unconditionally — as the harness (`harness/c16/call.go: newProxyServer`) replicates them;
 `ListenAndServeGRPC` passes the options unchanged to `grpc.NewServer`. -/
 theorem proxy_wiring_pinned :
     grpcServerOptions = ["grpc.CustomCodec(grpc_proxy.Codec())", "grpc.MaxRecvMsgSize(p0.Proxy.GRPCMaxRxMsgSize)", "grpc.MaxSendMsgSize(p0.Proxy.GRPCMaxTxMsgSize)", "grpc.StatsHandler(p2)", "grpc.StreamInterceptor(lit#proxy.GrpcProxyInterceptor.Stream)", "grpc.UnknownServiceHandler(grpc_proxy.TransparentHandler(proxy.GetGRPCDirector(p1, p0)))"] ∧
-    grpcInterceptorLit = ["lit proxy.GrpcProxyInterceptor {Config=p0; GlobCache=route.NewGlobCache(p0.GlobCacheSize); StatsHandler=p2}"] ∧
+    grpcInterceptorLit = ["lit proxy.GrpcProxyInterceptor {AuthSchemes=LoadAuthSchemes#0; Config=p0; GlobCache=route.NewGlobCache(p0.GlobCacheSize); StatsHandler=p2}"] ∧
     grpcNewServer = ["[!(ListenTCP#1 != nil)] call grpc.NewServer(p1...)"] := ⟨rfl, rfl, rfl⟩
 
 end Fabio.Props.C16Facts
